@@ -507,6 +507,26 @@ def attr_tables():
     return P, D
 
 
+def reserve_before_insert():
+    """in MediaPlaylistBuilder::push_segment and ::segments every `X.insert(i, ..)` on the segment vector directly follows
+    `X.reserve_for(i)` on the same receiver with the same index expression (StableVec::insert panics beyond the capacity)"""
+    text = strip_comments(strip_tests(read("media_playlist.rs")))
+    ok = True
+    found = 0
+    for fn in ("push_segment", "segments"):
+        m = re.search(r"pub fn %s\(&mut self[^{]*\{" % fn, text)
+        if not m:
+            return False
+        body = text[m.end() - 1: matching_brace(text, m.end() - 1)]
+        for ins in re.finditer(r"(\w+)\.insert\(([^,]+),", body):
+            found += 1
+            before = body[: ins.start()].rstrip()
+            want = "%s.reserve_for(%s);" % (ins.group(1), ins.group(2).strip())
+            if not before.endswith(want):
+                ok = False
+    return ok and found >= 2
+
+
 def generate():
     pf = prefixes()
     disp = dispatch()
@@ -563,6 +583,12 @@ def generate():
     L.append("")
     L.append("Definition pairing_prefix : str := %s." % pfx_name(pair_ty, pair_const))
     L.append("Definition missing_uri_is_error : bool := %s." % ("true" if missing == "error" else "false"))
+    try:
+        rbi = reserve_before_insert()
+    except Exception:
+        rbi = False
+    L.append("(* MediaPlaylistBuilder::push_segment / ::segments: every insert into the segment vector directly follows reserve_for *)")
+    L.append("Definition reserve_before_insert : bool := %s." % ("true" if rbi else "false"))
     L.append("")
     L.append("Definition master_rejects : list kind := [ " + "; ".join("K_" + v for v in rej_master) + " ].")
     L.append("Definition media_rejects : list kind := [ " + "; ".join("K_" + v for v in rej_media) + " ].")
